@@ -43,7 +43,9 @@ class StubPop:
 
 def patches(am):
     """Shim bindings for atomica.model (np, math, sc)"""
-    return [(am.__dict__, "np", ShimNP()), (am.__dict__, "math", ShimMath()), (am.__dict__, "sc", ShimSC(am.sc))]
+    from .shim import sfloat
+
+    return [(am.__dict__, "np", ShimNP()), (am.__dict__, "math", ShimMath()), (am.__dict__, "sc", ShimSC(am.sc)), (am.__dict__, "float", sfloat)]
 
 
 _MERGE_METHODS = ["resolve_outflows", "update", "balance", "initial_flush"]
